@@ -250,6 +250,28 @@ PROPS["C19"] = {
     "assumptions": ["symbolicExpressionSizes entries of removed expressions are not judged (the property does not mention them)"],
 }
 
+PROPS["C13"] = {
+    "engine": "rwsim",
+    "level": "exploration",
+    "quick_runs": 6000,
+    "thorough_runs": 120000,
+    "quick_wall": 240,
+    "thorough_wall": 2400,
+    "params": {"same_patch_p": 0.8, "asm_half": 50, "avoid_known": 0.8},
+    "rule": "two kinds of seeded runs, half each. (asmsim) an assembly text of 2-10 lines (instructions, labels, temporary labels, "
+    "data directives, section switches, references to module symbols / externs / own earlier labels) is assembled whole and in "
+    "EVERY split into consecutive chunks (all 2^k cut sets for up to 8 line boundaries, 64 sampled beyond; cuts that would make a "
+    "chunk refer to a later label are skipped) and the UUID-free dumps of Assembler.Result must be equal; ill-formed chunks "
+    "(syntax error, unknown symbol, redefinition) must raise their documented error. (rwsim) the same patch with temporary "
+    "labels and references is inserted N in 1..8 times in one rewrite: no duplicate symbol names, no copy refers to another "
+    "copy's temporary label, expressions hold the module's own symbol objects, unknown / redefined names raise "
+    "UndefSymbolError / MultipleDefinitionsError; distinct = scenario digest; non-trivial = at least 3 lines / 1 insertion",
+    "interleaving_measure": "distinct chunkings (cut sets) executed / distinct engine step sequences",
+    "real_vs_stub": RW_REAL + "; asmsim: real Assembler + mcasm, simulated caller that fragments the text",
+    "level_text": "seeded exploration; the chunking space of each sampled text with up to 9 lines is enumerated exhaustively",
+    "assumptions": ["cross-session reuse of temporary-label suffixes (a fresh RewritingContext restarts the counter) is not judged: the statement speaks of one rewrite"],
+}
+
 # (moved below)
 # engines built separately contribute their own entries
 import importlib as _il
